@@ -14,9 +14,11 @@ from typing import Any, Dict, List, Optional, Tuple
 VERIF = Path(__file__).resolve().parent.parent
 REPO = Path(os.environ.get('VERIF_REPO', '/repo'))
 LEAN = VERIF / 'lean'
-BUILD = VERIF / 'build'
-EVID = VERIF / 'evidence'
-REPLAYS = VERIF / 'replays'
+# (validation runs against a scratch copy of the library redirect their scratch, evidence and replay output, so that they
+# can run next to the real checks: seeded/run_all.sh, mutcheck)
+BUILD = Path(os.environ.get('VERIF_BUILD', VERIF / 'build'))
+EVID = Path(os.environ.get('VERIF_EVID', VERIF / 'evidence'))
+REPLAYS = Path(os.environ.get('VERIF_REPLAYS', VERIF / 'replays'))
 
 FORBIDDEN = re.compile(r'\b(sorry|admit|native_decide|bv_decide|implemented_by|unsafe)\b|^axiom |maxHeartbeats 0')
 ALLOWED_AXIOMS = {'propext', 'Classical.choice', 'Quot.sound'}
